@@ -110,9 +110,49 @@ def parser_kwargs(ver, cfg):
     return kw
 
 
+SCHEMAS = {
+    's1': '''<xs:schema xmlns:xs="http://www.w3.org/2001/XMLSchema">
+ <xs:element name="root"><xs:complexType><xs:sequence>
+  <xs:element name="a" type="xs:string" maxOccurs="unbounded"/><xs:element name="b" type="xs:integer"/>
+  <xs:element name="c"><xs:complexType><xs:sequence><xs:element name="d" type="xs:integer" maxOccurs="unbounded"/>
+   </xs:sequence><xs:attribute name="x" type="xs:date"/></xs:complexType></xs:element>
+ </xs:sequence><xs:attribute name="id" type="xs:ID"/></xs:complexType></xs:element></xs:schema>''',
+    's2': '''<xs:schema xmlns:xs="http://www.w3.org/2001/XMLSchema" xmlns="urn:p" targetNamespace="urn:p" elementFormDefault="qualified">
+ <xs:element name="r" type="rt"/>
+ <xs:complexType name="rt"><xs:sequence><xs:element name="a" type="xs:decimal"/><xs:element name="e" type="et" minOccurs="0"/>
+  </xs:sequence><xs:attribute name="min" type="xs:int"/><xs:attribute name="max" type="xs:string"/></xs:complexType>
+ <xs:complexType name="et"><xs:simpleContent><xs:extension base="xs:boolean"><xs:attribute name="x" type="xs:time"/>
+  </xs:extension></xs:simpleContent></xs:complexType></xs:schema>''',
+    's3': '''<xs:schema xmlns:xs="http://www.w3.org/2001/XMLSchema">
+ <xs:element name="a"><xs:complexType><xs:sequence><xs:element name="d" type="xs:string"/>
+  <xs:element name="b" minOccurs="0"><xs:complexType><xs:sequence><xs:element name="c" type="xs:double"/></xs:sequence>
+   <xs:attribute name="x" type="xs:string"/></xs:complexType></xs:element></xs:sequence>
+  <xs:attribute name="x" type="xs:integer"/></xs:complexType></xs:element></xs:schema>''',
+}
+SCHEMA_CONFIGS = {'schema-s1': ('s1', None), 'schema-s1-c': ('s1', 'root/c'), 'schema-s2': ('s2', None),
+                  'schema-s2-r': ('s2', 'p:r'), 'schema-s3': ('s3', None), 'schema-s3-b': ('s3', 'a/b')}
+
+
+def schema_proxy(cfg):
+    """a new proxy (it is bound to one parser) over a cached xmlschema.XMLSchema"""
+    import xmlschema
+    from xmlschema.xpath import XMLSchemaProxy
+    name, base = SCHEMA_CONFIGS[cfg]
+    sch = _CACHE.get(('xsd', name))
+    if sch is None:
+        sch = _CACHE[('xsd', name)] = xmlschema.XMLSchema(SCHEMAS[name])
+    if base is None:
+        return XMLSchemaProxy(sch)
+    elem = sch.find(base, namespaces={'p': 'urn:p'})
+    assert elem is not None, (cfg, base)
+    return XMLSchemaProxy(sch, elem)
+
+
 def new_parser(ver, cfg='default'):
     if cfg == 'default':
         return parser_class(ver)(namespaces=dict(NS))
+    if cfg in SCHEMA_CONFIGS:
+        return parser_class(ver)(namespaces=dict(NS), schema=schema_proxy(cfg))
     return parser_class(ver)(**parser_kwargs(ver, cfg))
 
 
@@ -162,7 +202,77 @@ def _variables(ver):
     return dict(v)
 
 
-def make_context(ver, kind, extra_vars=None):
+CONTEXT_CONFIGS = ('plain', 'dt-utc', 'dt-plus0530', 'dt-minus14', 'dt-seconds-offset', 'dt-zoneinfo', 'dt-tz-none', 'dt-naive',
+                   'tz-string', 'tz-z', 'tz-object', 'tz-and-dt', 'language', 'resources', 'item-datetime')
+
+
+def context_kwargs(cfg):
+    """XPathContext arguments that date/time and resource functions read"""
+    import datetime as dt
+    if cfg == 'plain':
+        return {}
+    base = (2001, 2, 3, 4, 5, 6)
+    if cfg == 'dt-utc':
+        return {'current_dt': dt.datetime(*base, tzinfo=dt.timezone.utc)}
+    if cfg == 'dt-plus0530':
+        return {'current_dt': dt.datetime(*base, tzinfo=dt.timezone(dt.timedelta(hours=5, minutes=30)))}
+    if cfg == 'dt-minus14':
+        return {'current_dt': dt.datetime(*base, tzinfo=dt.timezone(dt.timedelta(hours=-14)))}
+    if cfg == 'dt-seconds-offset':
+        return {'current_dt': dt.datetime(*base, tzinfo=dt.timezone(dt.timedelta(hours=1, seconds=30)))}
+    if cfg == 'dt-zoneinfo':
+        try:
+            import zoneinfo
+            tz = zoneinfo.ZoneInfo('Europe/Rome')
+        except Exception:
+            class Rule(dt.tzinfo):          # rule based: no offset without a date
+                def utcoffset(self, d):
+                    return None if d is None else dt.timedelta(hours=1)
+
+                def dst(self, d):
+                    return None if d is None else dt.timedelta(0)
+
+                def tzname(self, d):
+                    return 'RULE'
+            tz = Rule()
+        return {'current_dt': dt.datetime(2001, 7, 3, 4, 5, 6, tzinfo=tz)}
+    if cfg == 'dt-tz-none':
+        class NoOffset(dt.tzinfo):
+            def utcoffset(self, d):
+                return None
+
+            def dst(self, d):
+                return None
+
+            def tzname(self, d):
+                return None
+        return {'current_dt': dt.datetime(*base, tzinfo=NoOffset())}
+    if cfg == 'dt-naive':
+        return {'current_dt': dt.datetime(*base)}
+    if cfg == 'tz-string':
+        return {'timezone': '+05:00'}
+    if cfg == 'tz-z':
+        return {'timezone': 'Z'}
+    if cfg == 'tz-object':
+        from elementpath.datatypes import Timezone
+        return {'timezone': Timezone.fromstring('-03:30')}
+    if cfg == 'tz-and-dt':
+        return {'timezone': '-08:00', 'current_dt': dt.datetime(*base, tzinfo=dt.timezone(dt.timedelta(hours=9)))}
+    if cfg == 'language':
+        return {'default_language': 'it', 'default_calendar': 'AD', 'default_place': 'Europe/Rome'}
+    if cfg == 'resources':
+        root, tree = _etree_doc('et')
+        return {'documents': {'http://example.com/d.xml': tree, 'd2.xml': root}, 'collections': {'http://example.com/c': [root, tree]},
+                'default_collection': [root], 'text_resources': {'http://example.com/t.txt': 'line1\nline2'},
+                'resource_collections': {'http://example.com/rc': ['http://example.com/t.txt']},
+                'default_resource_collection': 'http://example.com/rc', 'allow_environment': True}
+    if cfg == 'item-datetime':
+        from elementpath.datatypes import DateTime10
+        return {'item': DateTime10.fromstring('2001-01-01T10:00:00+02:00')}
+    raise KeyError(cfg)
+
+
+def make_context(ver, kind, extra_vars=None, ctxcfg=None):
     """-> (XPathContext or None, root object for the module-level API)"""
     from elementpath import XPathContext
     if kind == 'none':
@@ -172,6 +282,8 @@ def make_context(ver, kind, extra_vars=None):
     variables = _variables(ver)
     if extra_vars:
         variables.update(extra_vars)
+    if ctxcfg:
+        return XPathContext(tree if kind == 'doc' else root, variables=variables, **context_kwargs(ctxcfg)), root
     if kind == 'doc':
         return XPathContext(tree, variables=variables), tree
     if kind in ('root', 'lxml'):
@@ -255,7 +367,7 @@ def _esc(exc, s, phase):
     return Disc(call_site_bucket(exc), 'ElementPathError or a value', repr(exc)[:300], f'{phase}: {s!r}'), 'escape'
 
 
-def judge_string(ver, s, ctxkind, api, rec=None, source='?', extra_vars=None, cfg='default'):
+def judge_string(ver, s, ctxkind, api, rec=None, source='?', extra_vars=None, cfg='default', ctxcfg=None):
     from elementpath.exceptions import ElementPathError
     import elementpath
     discs = []
@@ -265,6 +377,8 @@ def judge_string(ver, s, ctxkind, api, rec=None, source='?', extra_vars=None, cf
     p = new_parser(ver, cfg)
     if cfg != 'default':
         classes.append(f'expr:cfg-{cfg}')
+    if ctxcfg:
+        classes.append(f'expr:ctxcfg-{ctxcfg}')
     try:
         st_, tok = guarded(lambda: p.parse(s))
         if st_ == 'timeout':
@@ -287,7 +401,7 @@ def judge_string(ver, s, ctxkind, api, rec=None, source='?', extra_vars=None, cf
     if tok is not None:
         outcome = 'parsed'
         try:
-            ctx, root = make_context(ver, ctxkind, extra_vars)
+            ctx, root = make_context(ver, ctxkind, extra_vars, ctxcfg)
 
             def run():
                 if api == 'evaluate':
@@ -341,7 +455,7 @@ def judge_string(ver, s, ctxkind, api, rec=None, source='?', extra_vars=None, cf
 def judge_batch(case, rec=None, source='?'):
     out = []
     for it in case['items']:
-        out += judge_string(case['ver'], it['s'], it['ctx'], it['api'], rec, source, it.get('vars'), it.get('cfg', 'default'))
+        out += judge_string(case['ver'], it['s'], it['ctx'], it['api'], rec, source, it.get('vars'), it.get('cfg', 'default'), it.get('ctxcfg'))
     return out
 
 
@@ -359,7 +473,10 @@ def _vrepr(v, depth=0):
         return f'{tn}@{v.position}'
     if hasattr(v, 'nargs'):
         try:
-            return re.sub(r' at 0x[0-9a-f]+', '', f'{tn}:{v.symbol}:{len(v._items)}:{v.source}')
+            if str(getattr(v, 'label', '')) in ('map', 'array'):
+                return re.sub(r' at 0x[0-9a-f]+', '', f'{tn}:{v.source}')
+            # a function item: its argument tokens are rewritten by every call (the object in $f is shared by all cases)
+            return f'{tn}:{v.symbol}:{v.nargs if isinstance(v.nargs, int) else "*"}'
         except Exception:
             return f'{tn}:{getattr(v, "symbol", "?")}'
     if hasattr(v, 'symbol'):
@@ -406,12 +523,12 @@ def _parse_outcome(p, s, ver=None):
 _FRESH: dict = {}
 
 
-def _fresh_outcome(ver, s):
-    """outcome of a fresh parser (a pure function of version and string: cached per process)"""
-    key = (ver, s)
+def _fresh_outcome(ver, s, cfg='default'):
+    """outcome of a fresh parser (a pure function of version, configuration and string: cached per process)"""
+    key = (ver, cfg, s)
     o = _FRESH.get(key)
     if o is None:
-        o = _FRESH[key] = _parse_outcome(new_parser(ver), s, ver)
+        o = _FRESH[key] = _parse_outcome(new_parser(ver, cfg), s, ver)
         if len(_FRESH) > 20000:
             _FRESH.clear()
     return o
@@ -436,7 +553,8 @@ def _state_problems(p):
 def _attr_diff(p, fresh):
     """attributes of the long-lived parser whose value differs from that of a fresh instance (an instance attribute that
     merely shadows an equal class attribute is no difference)"""
-    skip = {'tokens', 'token', 'next_token', 'next_match', '_start_token', 'source'}
+    skip = {'tokens', 'token', 'next_token', 'next_match', '_start_token', 'source',
+            'schema', 'symbol_table', 'tokenizer', 'function_signatures'}     # per-instance copies of a schema-bound parser
     keys = (set(getattr(p, '__dict__', {})) | set(getattr(fresh, '__dict__', {}))) - skip
     missing = object()
     diff = []
@@ -457,18 +575,19 @@ def _attr_diff(p, fresh):
 
 def judge_reuse(case, rec=None, tag='reuse'):
     ver = case['ver']
+    cfg = case.get('cfg', 'default')
     discs = []
-    long = new_parser(ver)
+    long = new_parser(ver, cfg)
     failed_before = ok_after_fail = False
     n_fail = n_ok = resync = 0
     leaked = set()
     for i, s in enumerate(case['steps']):
         got = _parse_outcome(long, s, ver)
-        want = _fresh_outcome(ver, s)
+        want = _fresh_outcome(ver, s, cfg)
         probs = _state_problems(long)
-        ref = _CACHE.get(('refparser', ver))
+        ref = _CACHE.get(('refparser', ver, cfg))
         if ref is None:
-            ref = _CACHE[('refparser', ver)] = new_parser(ver)      # never used for parsing
+            ref = _CACHE[('refparser', ver, cfg)] = new_parser(ver, cfg)      # never used for parsing
         attrs = _attr_diff(long, ref)
         # classes describe the history itself (what a fresh parser does with each step), not the parser under test
         if want[0] == 'error' or want[0] == 'exc':
@@ -494,7 +613,7 @@ def judge_reuse(case, rec=None, tag='reuse'):
         if want[0] in ('error', 'exc'):
             failed_before = True
         if diverged:
-            long = new_parser(ver)
+            long = new_parser(ver, cfg)
             leaked = set()
             resync += 1
     if rec is not None:
@@ -505,7 +624,7 @@ def judge_reuse(case, rec=None, tag='reuse'):
             rec.cls(f'{tag}:resync', resync)
         rec.cls(f'{tag}:steps', len(case['steps']))
         rec.cls(f'{tag}:failing-steps', n_fail)
-        rec.case([ver, case['steps']], nontrivial=ok_after_fail, sample={'check': tag, 'ver': ver, 'steps': case['steps'][:6]},
+        rec.case([ver, cfg, case['steps']], nontrivial=ok_after_fail, sample={'check': tag, 'ver': ver, 'steps': case['steps'][:6]},
                  classes=classes)
     return discs
 
@@ -513,7 +632,16 @@ def judge_reuse(case, rec=None, tag='reuse'):
 # --------------------------------------------------------------------------
 # strategies
 # --------------------------------------------------------------------------
-EXHAUSTIVE_NOTE = ('further complete grids: itemgrid (every kind of function item - inline with empty / literal / focus / closure / typed '
+EXHAUSTIVE_NOTE = ('schemagrid: histories on schema-bound parsers (3 small schemas, proxies on the schema and on a base element: 6 '
+                   'configurations x 2.0/3.0/3.1): a first parse with a rooted step that fails during the static schema-context '
+                   'evaluation (or succeeds), then relative probes whose outcome depends on the focus, compared with a fresh '
+                   'schema-bound parser: 3150 histories; the same 6 configurations are part of cfggrid (43 382 cases in all). '
+                   'ctxgrid: ~100 expressions that read the dynamic context (current date/time, implicit timezone, adjust-*, '
+                   'format-*, comparisons of zoned and unzoned values, doc/collection/unparsed-text/environment, default '
+                   'language) x 15 XPathContext configurations (current_dt with utc / +05:30 / -14:00 / seconds offset / ZoneInfo / '
+                   'tzinfo without offset / naive; timezone as string, Z, Timezone object, with current_dt; language+calendar+'
+                   'place; documents/collections/text resources; dateTime context item): 4050 cases. '
+                   'further complete grids: itemgrid (every kind of function item - inline with empty / literal / focus / closure / typed '
                    'body, named references, partial applications of each, maps, arrays: 33 items in 3.0, 49 in 3.1 - x 25-45 ways of '
                    'calling it: direct, parenthesised, let-bound, !, partial then call, partial of partial, apply, for-each/filter/'
                    'fold/sort/array:*/map:*, arrow, lookup, wrong arity: 4128 cases), cfggrid (type operators with unprefixed and '
@@ -1087,6 +1215,78 @@ def judge_blowup(case, rec=None, repo=None):
     return discs
 
 
+# ---- schema grid: histories on schema-bound parsers (static evaluation in a schema context) ---------------------------
+SCHEMA_FIRST = {
+    's1': ["//a[. eq 1]", "//a eq 1", "/root/b eq 'x'", "//d + 'x'", "/root/c/@x eq 1", "//c[@x eq 1]/d", "/root/a[. eq 1]", "//b[. eq 'x']",
+           "//a", "/root/c", "/", "//d", "/root/c/d[1]", "//c/@x", "/root[b eq 'x']", "//d[. + 'x']", "/root/c/d eq 'x'", "(//a, 1 div 0)",
+           "/root/nope eq 1", "//a[", "/root/c/(", "root/a eq 1", "c/d eq 'x'"],
+    's2': ["//p:a eq 'x'", "/p:r/@min eq 'x'", "//p:e[@x eq 1]", "/p:r/p:a", "//p:e", "/p:r[@max eq 1]", "/p:r/p:e eq 1", "//p:a[. eq 'x']",
+           "/", "//p:e/@x"],
+    's3': ["//d eq 1", "/a/b/c eq 'x'", "//b[@x eq 1]", "/a/@x eq 'x'", "//c", "/a/b", "//b/@x", "/a[d eq 1]", "//c + 'x'", "/"],
+}
+SCHEMA_PROBES = {
+    's1': ["d eq 1", "@x eq 'a'", "d + 1", "year-from-date(@x)", "a", "b + 1", "c/d", ".", "@id", "count(c)", "root/a eq 1", "a eq 1",
+           "c/@x eq 1", "string-length(a)", "d[1] eq 'x'"],
+    's2': ["p:a + 1", "@min + 1", "@max eq 'x'", "@max eq 1", "p:e eq true()", "hours-from-time(p:e/@x)", "p:r/p:a eq 'x'", "@x eq 1", "."],
+    's3': ["d eq 'x'", "d eq 1", "@x + 1", "@x eq 'a'", "b/c + 1", "c + 1", "c eq 'x'", "a/d eq 1", "."],
+}
+
+
+def schema_grid(ver):
+    """(cfg, steps): a first parse with a rooted step (failing during static evaluation, or not) then relative probes"""
+    for cfg, (name, _base) in SCHEMA_CONFIGS.items():
+        probes = SCHEMA_PROBES[name]
+        for i, first in enumerate(SCHEMA_FIRST[name]):
+            for j in range(len(probes)):
+                yield cfg, [first, probes[j], probes[(j + 1 + i) % len(probes)], first, probes[(j + 3) % len(probes)]]
+
+
+# ---- context grid: functions that read the dynamic context x context configurations ----------------------------------
+CTX_STRINGS = [
+    "current-dateTime()", "current-date()", "current-time()", "implicit-timezone()", "timezone-from-dateTime(current-dateTime())",
+    "timezone-from-date(current-date())", "timezone-from-time(current-time())", "adjust-dateTime-to-timezone(current-dateTime())",
+    "adjust-dateTime-to-timezone(xs:dateTime('2001-01-01T00:00:00'))", "adjust-date-to-timezone(xs:date('2001-01-01'))",
+    "adjust-time-to-timezone(xs:time('10:00:00'))", "adjust-dateTime-to-timezone(current-dateTime(), ())",
+    "adjust-date-to-timezone(current-date(), xs:dayTimeDuration('PT2H'))", "adjust-time-to-timezone(current-time(), implicit-timezone())",
+    "adjust-dateTime-to-timezone(xs:dateTime('2001-01-01T00:00:00+14:00'))",
+    "format-dateTime(current-dateTime(), '[Y]-[M]-[D] [H]:[m]:[s] [z] [Z] [ZN]')", "format-date(current-date(), '[FNn] [D1o] [MNn] [Y] [E] [C]')",
+    "format-time(current-time(), '[h]:[m] [P] [Z0000] [z]')", "format-dateTime(current-dateTime(), '[Y]', 'it', (), ())",
+    "format-date(current-date(), '[MNn]', 'de', 'AD', 'Europe/Rome')", "format-time(current-time(), '[H]', (), (), 'us')",
+    "format-date(xs:date('2001-01-01'), '[Y][Z]')", "xs:dateTime('2001-01-01T00:00:00') - current-dateTime()",
+    "current-dateTime() eq current-dateTime()", "current-dateTime() + xs:dayTimeDuration('PT1H')", "current-date() - xs:date('2000-01-01')",
+    "xs:date('2001-01-01') eq xs:date('2001-01-01Z')", "xs:time('10:00:00') lt current-time()", "xs:dateTime('2001-01-01T00:00:00') lt current-dateTime()",
+    "year-from-dateTime(current-dateTime())", "hours-from-time(current-time())", "seconds-from-dateTime(current-dateTime())",
+    "string(current-dateTime())", "string(current-time())", "dateTime(current-date(), current-time())", "xs:date(current-dateTime())",
+    "xs:time(current-dateTime())", "current-dateTime() cast as xs:gYear", "max((xs:date('2001-01-01'), xs:date('2001-01-01+01:00')))",
+    "min((current-time(), xs:time('10:00:00')))", "distinct-values((xs:date('2001-01-01'), xs:date('2001-01-01Z')))",
+    "deep-equal(xs:dateTime('2001-01-01T00:00:00'), xs:dateTime('2001-01-01T00:00:00Z'))", "index-of((current-date()), current-date())",
+    "xs:gYear('2001') eq xs:gYear('2001Z')", "timezone-from-dateTime(.)", "adjust-dateTime-to-timezone(.)", "hours-from-dateTime(.)",
+    ". - current-dateTime()", "doc('http://example.com/d.xml')", "doc-available('http://example.com/d.xml')", "doc('d2.xml')/a",
+    "doc('nope.xml')", "doc-available('nope.xml')", "doc(())", "doc-available(())", "collection()", "collection('http://example.com/c')",
+    "collection('nope')", "collection(())", "count(collection())", "default-collation()", "static-base-uri()", "base-uri(.)",
+    "document-uri(/)", "root()", "id('x')", "idref('x')", "lang('it')", "lang('en', a)", "implicit-timezone() + implicit-timezone()",
+    "(current-dateTime(), current-dateTime())[2] eq current-dateTime()", "for $x in 1 to 2 return current-time()",
+]
+CTX_STRINGS_30 = ["uri-collection()", "uri-collection('http://example.com/rc')", "uri-collection('nope')", "unparsed-text('http://example.com/t.txt')",
+                  "unparsed-text-available('http://example.com/t.txt')", "unparsed-text-lines('http://example.com/t.txt')",
+                  "unparsed-text('nope.txt')", "unparsed-text-available('nope.txt')", "unparsed-text('http://example.com/t.txt', 'utf-8')",
+                  "environment-variable('PATH')", "environment-variable('NOPE_X')", "count(available-environment-variables())",
+                  "format-dateTime(current-dateTime(), '[Y0001]-[M01]-[D01]T[H01]:[m01]:[s01][Z]')", "current-dateTime() ! timezone-from-dateTime(.)",
+                  "let $d := current-dateTime() return adjust-dateTime-to-timezone($d, timezone-from-dateTime($d))",
+                  "timezone-from-dateTime#1(current-dateTime())", "for-each((current-dateTime()), timezone-from-dateTime#1)",
+                  "function() { implicit-timezone() }()", "generate-id(.)", "path(.)", "has-children()", "innermost(.)"]
+CTX_STRINGS_31 = ["default-language()", "current-dateTime() => timezone-from-dateTime()", "sort((current-time(), xs:time('10:00:00')))",
+                  "map{'d': current-date()}?d", "[current-dateTime()](1) => adjust-dateTime-to-timezone()", "parse-ietf-date('Wed, 06 Jun 1994 07:29:35 GMT')",
+                  "json-doc('http://example.com/t.txt')", "collation-key('a')", "contains-token('a b', 'a')", "random-number-generator(1)?number > 2"]
+
+
+def ctx_grid(ver):
+    strings = CTX_STRINGS + (CTX_STRINGS_30 if ver >= '3.0' else []) + (CTX_STRINGS_31 if ver >= '3.1' else [])
+    for ctxcfg in CONTEXT_CONFIGS:
+        for s_ in strings:
+            yield s_, ctxcfg
+
+
 def _item(strings, source):
     return st.fixed_dictionaries({'s': strings, 'ctx': st.sampled_from(CTX_KINDS + ('root', 'root', 'doc')),
                                   'api': st.sampled_from(APIS + ('evaluate', 'select'))})
@@ -1148,7 +1348,7 @@ def _strategy(job):
 
 
 def _judge_for(chk):
-    if chk in ('reuse', 'reusegrid'):
+    if chk in ('reuse', 'reusegrid', 'schemagrid'):
         return judge_reuse
     if chk == 'blowup':
         return judge_blowup
@@ -1196,6 +1396,9 @@ def jobs(tier, seed):
     for v, k in (('3.0', 1), ('3.1', 2)):
         for i in range(k):
             out.append({'check': 'nsgrid', 'ver': v, 'part': i, 'parts': k})
+    for v in ('2.0', '3.0', '3.1'):
+        out.append({'check': 'schemagrid', 'ver': v, 'part': 0, 'parts': 1})
+        out.append({'check': 'ctxgrid', 'ver': v, 'part': 0, 'parts': 1})
     for v in ('3.0', '3.1'):
         out.append({'check': 'itemgrid', 'ver': v, 'part': 0, 'parts': 1})
     for v in VERS:
@@ -1227,7 +1430,7 @@ def run_job(job, rec: Recorder):
     if chk == 'atheris':
         from vp.gen import c03_atheris
         return c03_atheris.run(job, rec)
-    if chk in ('callgrid', 'opgrid', 'nsgrid', 'regexgrid', 'itemgrid', 'cfggrid'):
+    if chk in ('callgrid', 'opgrid', 'nsgrid', 'regexgrid', 'itemgrid', 'cfggrid', 'ctxgrid'):
         for case in _grid_cases(job):
             rec.discs_of(chk, case, judge_batch(case, rec, chk))
         return
@@ -1235,9 +1438,9 @@ def run_job(job, rec: Recorder):
         case = {'ver': job['ver'], 'units': job['units']}
         rec.discs_of('blowup', case, judge_blowup(case, rec))
         return
-    if chk == 'reusegrid':
+    if chk in ('reusegrid', 'schemagrid'):
         for case in _grid_cases(job):
-            rec.discs_of(chk, case, judge_reuse(case, rec, 'reusegrid'))
+            rec.discs_of(chk, case, judge_reuse(case, rec, chk))
         return
     jd = _judge_for(chk)
     hyp_collect(_strategy(job), lambda case: rec.discs_of(chk, case, jd(case, rec)), job['n'], job['seed'], rec)
@@ -1259,9 +1462,22 @@ def _grid_cases(job):
                 yield {'ver': ver, 'items': [it]}
         return
     if chk == 'cfggrid':
-        for cfg in PARSER_CONFIGS:
+        for cfg in PARSER_CONFIGS + (tuple(SCHEMA_CONFIGS) if ver != '1.0' else ()):
             for s in cfg_grid(ver):
                 yield {'ver': ver, 'items': [{'s': s, 'ctx': 'root', 'api': 'evaluate', 'cfg': cfg}]}
+            if cfg in SCHEMA_CONFIGS:
+                name = SCHEMA_CONFIGS[cfg][0]
+                for s in SCHEMA_FIRST[name] + SCHEMA_PROBES[name]:
+                    yield {'ver': ver, 'items': [{'s': s, 'ctx': 'root', 'api': 'evaluate', 'cfg': cfg}]}
+        return
+    if chk == 'schemagrid':
+        for cfg, steps in schema_grid(ver):
+            yield {'ver': ver, 'cfg': cfg, 'steps': steps}
+        return
+    if chk == 'ctxgrid':
+        for idx, (s, ctxcfg) in enumerate(ctx_grid(ver)):
+            yield {'ver': ver, 'items': [{'s': s, 'ctx': 'doc' if idx % 3 == 2 else 'root', 'api': 'select' if idx % 2 else 'evaluate',
+                                          'ctxcfg': ctxcfg}]}
         return
     if chk == 'itemgrid':
         for idx, s in enumerate(item_grid(ver)):
@@ -1280,7 +1496,7 @@ def shrink_job(job, bucket, budget):
     chk = job['check']
     if chk == 'atheris':
         return None
-    if chk == 'reusegrid':
+    if chk in ('reusegrid', 'schemagrid'):
         for case in _grid_cases(job):
             for d in judge_reuse(case):
                 if d.bucket == bucket:
@@ -1293,7 +1509,7 @@ def shrink_job(job, bucket, budget):
                 if d.bucket == bucket:
                     return case, d
         return None
-    if chk in ('callgrid', 'opgrid', 'nsgrid', 'regexgrid', 'itemgrid', 'cfggrid'):
+    if chk in ('callgrid', 'opgrid', 'nsgrid', 'regexgrid', 'itemgrid', 'cfggrid', 'ctxgrid'):
         for case in _grid_cases(job):
             for d in judge_batch(case, None, chk):
                 if d.bucket == bucket:
